@@ -8,8 +8,10 @@ import (
 
 	"github.com/ajitpratap0/GoSQLX/cmd/gosqlx/internal/config"
 	"github.com/ajitpratap0/GoSQLX/cmd/gosqlx/internal/output"
+	"github.com/ajitpratap0/GoSQLX/pkg/sql/ast"
 	"github.com/ajitpratap0/GoSQLX/pkg/sql/keywords"
 	"github.com/ajitpratap0/GoSQLX/pkg/sql/parser"
+	"github.com/ajitpratap0/GoSQLX/pkg/sql/tokenizer"
 )
 
 var (
@@ -271,7 +273,11 @@ func validateFromStdin(cmd *cobra.Command) error {
 // Uses the fast-path Validate() which skips full AST construction (#274).
 func validateInlineSQL(cmd *cobra.Command, sql string) error {
 	var err error
-	if validateDialect != "" {
+	if validateStrict {
+		// --strict holds for inline SQL as it does for files and stdin: the
+		// fast path has no strict mode, so parse with a strict parser
+		err = validateInlineStrict(sql)
+	} else if validateDialect != "" {
 		err = parser.ValidateWithDialect(sql, keywords.SQLDialect(validateDialect))
 	} else {
 		err = parser.Validate(sql)
@@ -293,6 +299,30 @@ func validateInlineSQL(cmd *cobra.Command, sql string) error {
 	if !validateQuiet {
 		fmt.Fprintln(cmd.OutOrStdout(), "✓ Valid SQL")
 	}
+	return nil
+}
+
+// validateInlineStrict parses sql the way validateFile does with --strict.
+func validateInlineStrict(sql string) error {
+	tkz := tokenizer.GetTokenizer()
+	defer tokenizer.PutTokenizer(tkz)
+	opts := []parser.ParserOption{parser.WithStrictMode()}
+	if validateDialect != "" {
+		tkz.SetDialect(keywords.SQLDialect(validateDialect))
+		opts = append(opts, parser.WithDialect(validateDialect))
+	}
+	tokens, err := tkz.Tokenize([]byte(sql))
+	if err != nil {
+		return err
+	}
+	if len(tokens) == 0 {
+		return nil
+	}
+	tree, err := parser.NewParser(opts...).ParseFromModelTokens(tokens)
+	if err != nil {
+		return err
+	}
+	ast.ReleaseAST(tree)
 	return nil
 }
 
